@@ -759,7 +759,7 @@ def run_batch(ctx, binp, cfgs, tag, case_timeout="10s"):
 
 
 HEADER = ("From Coq Require Import List ZArith Bool.\n"
-          "From IocVerif Require Import Model.App Corr.Wiring %s.\nImport ListNotations.\n"
+          "From IocVerif Require Import Model.App Corr.Wiring Corr.WiringFacts %s.\nImport ListNotations.\n"
           "Notation case := wcase.\n")
 
 
@@ -821,8 +821,9 @@ def shape_hash(s):
 def run_family(ctx, check_module, make_scenarios, rule, assumptions=None, classify_known=None, extra_corpus=None,
                post=None, extra_defs=None):
     """make_scenarios(ctx, tier, widen=False) -> list of scenarios (ids unique)."""
-    static_ok = vlib.static_obligations(ctx)
-    defs = {"M": "mismatches", "V": "violations", "NT": "count_nontrivial"}
+    static_ok = vlib.static_obligations(ctx, extra_targets=["Corr/WiringFacts.vo"])
+    defs = {"M": "mismatches", "V": "violations", "NT": "count_nontrivial",
+            "F_US": "count_unstaged", "F_UNS": "count_unsettled_w", "F_PP": "count_pointed_procs_w"}
     defs.update(extra_defs or {})
     if ctx.replay:
         r = json.load(open(ctx.replay))
@@ -861,13 +862,22 @@ def run_family(ctx, check_module, make_scenarios, rule, assumptions=None, classi
         "nontrivial_cases": nt,
         "distinct_cases": distinct,
     }
+    # instantiated obligations: side conditions of the run-level theorems on the facts of this run
+    us, uns, pp = sum(out.get("F_US", [0])), sum(out.get("F_UNS", [0])), sum(out.get("F_PP", [0]))
+    ctx.oblige("facts: stages_ok_b (sorted built-in pipeline = props, value, wire, func, further-matching) on every scenario",
+               us == 0, "%d scenarios" % us)
+    ctx.oblige("facts: settled_b (further-matching after candidate collection) on every scenario", uns == 0, "%d scenarios" % uns)
+    cov["instantiated_obligations"] = {"unstaged": us, "unsettled": uns, "scenarios_with_pointed_processors": pp}
+    if us or uns:
+        ctx.facts_broken = True
     if post:
         try:
             post(ctx, by_id, cov, out)
         except TypeError:
             post(ctx, by_id, cov)
-    return vlib.decide(ctx, static_ok, by_id, M, V, cov, classify_known=classify_known, widen=widen, shrink=shrink,
-                       assumptions=assumptions)
+    rc = vlib.decide(ctx, static_ok and not getattr(ctx, "facts_broken", False), by_id, M, V, cov,
+                     classify_known=classify_known, widen=widen, shrink=shrink, assumptions=assumptions)
+    return rc
 
 
 def shrink_scenario(ctx, case, check_module, rounds=5):
